@@ -459,7 +459,32 @@ fn text_path_quirk(ts: &[String]) -> bool {
 /// reads on and returns one long name (lexer.rs:562-719: the built-in type names are tried on
 /// the longest candidate only).
 fn text_builtin_tail(ts: &[String]) -> bool {
-  (0..ts.len()).any(|i| (ts[i] == "number" || ts[i] == "string") && i + 1 < ts.len() && (is_word(&ts[i + 1]) || ts[i + 1].chars().next().map(|c| c.is_ascii_digit()).unwrap_or(false) || [".", "/", "-", "'", "+", "*", "**", ".."].contains(&ts[i + 1].as_str())))
+  const TYPES: [&[&str]; 10] = [
+    &["number"],
+    &["string"],
+    &["boolean"],
+    &["date", "and", "time"],
+    &["date"],
+    &["time"],
+    &["days", "and", "time", "duration"],
+    &["years", "and", "months", "duration"],
+    &["Any"],
+    &["Null"],
+  ];
+  let follows = |t: &String| is_word(t) || t.chars().next().map(|c| c.is_ascii_digit()).unwrap_or(false) || [".", "/", "-", "'", "+", "*", "**", ".."].contains(&t.as_str());
+  for i in 0..ts.len() {
+    // a type name starts where a type may start: after `of`, `:`, `<`, `,` or `->`
+    if i == 0 || !["of", ":", "<", ",", "->"].contains(&ts[i - 1].as_str()) {
+      continue;
+    }
+    for ty in TYPES {
+      let n = ty.len();
+      if i + n < ts.len() && (0..n).all(|k| ts[i + k] == ty[k]) && follows(&ts[i + n]) {
+        return true;
+      }
+    }
+  }
+  false
 }
 
 #[derive(Clone, Copy, PartialEq, Debug)]
@@ -1172,10 +1197,19 @@ fn range_or_test(rng: &mut Rng) -> AstNode {
 /// follows: `)`, `,`, `>`).
 fn type_node(rng: &mut Rng, depth: u32, tail: bool) -> AstNode {
   if depth == 0 || rng.chance(1, 2) {
-    return match rng.below(if tail { 3 } else { 1 }) {
+    return match rng.below(if tail { 11 } else { 1 }) {
       0 => AstNode::QualifiedName(vec![AstNode::QualifiedNameSegment(Name::from(NAMES[8 + rng.below(2) as usize]))]),
       1 => AstNode::FeelType(FeelType::Number),
-      _ => AstNode::FeelType(FeelType::String),
+      2 => AstNode::FeelType(FeelType::String),
+      3 => AstNode::FeelType(FeelType::Boolean),
+      // type names that are also the names of conversion functions
+      4 => AstNode::FeelType(FeelType::Date),
+      5 => AstNode::FeelType(FeelType::Time),
+      6 => AstNode::FeelType(FeelType::DateTime),
+      7 => AstNode::FeelType(FeelType::DaysAndTimeDuration),
+      8 => AstNode::FeelType(FeelType::YearsAndMonthsDuration),
+      9 => AstNode::FeelType(FeelType::Any),
+      _ => AstNode::FeelType(FeelType::Null),
     };
   }
   match rng.below(4) {
